@@ -214,7 +214,7 @@ pub static C11: PropSpec = PropSpec {
     id: "C11",
     simulator: "I-sim",
     level: "exploration",
-    runs: |t| if t == Tier::Thorough { 400_000 } else { 30_000 },
+    runs: |t| if t == Tier::Thorough { 4_000_000 } else { 30_000 },
     enumerated: |_| 0,
     run: run_c11,
     rule: "generated IRR database (nested and cyclic as-sets, hierarchical names, unknown nested sets, ASes with only IPv4 / only IPv6 / no routes, duplicate prefixes, nested route-sets, filter-sets referring to other names; thorough: an as-set with up to 2600 members, crossing irrc's 1000-in-flight window) and an mp-filter expression over its names (AND/OR/NOT, parentheses, literal prefix sets, all range operators, occasionally unknown names); responses are cut by seeded read sizes (1-7 bytes / mixed / whole) and writes may be partial. Oracle: ranges equal the reference evaluation (rpsl's evaluator over a resolver that reads the database directly). Non-trivial = the reference set is non-empty; distinct = distinct event-log hash",
@@ -233,7 +233,7 @@ pub static C17: PropSpec = PropSpec {
     id: "C17",
     simulator: "I-sim",
     level: "exploration",
-    runs: |t| if t == Tier::Thorough { 300_000 } else { 25_000 },
+    runs: |t| if t == Tier::Thorough { 3_000_000 } else { 25_000 },
     enumerated: |_| 0,
     run: run_c17,
     rule: "2-10 expressions evaluated in sequence on one evaluator (one pipelined connection); 0-3 IRR error responses (key not found, not unique, other) injected at seeded query ordinals; filter-set responses optionally carry two objects (the resolver stops at the first); seeded read segmentation. Oracle: every evaluation whose own queries were not faulted equals the reference (= fresh-connection result), in particular those that follow a faulted one. Non-trivial = at least a second evaluation was checked; distinct = distinct event-log hash",
